@@ -208,6 +208,11 @@ class FuncState:
             if isinstance(e.op, (ast.BitOr, ast.BitAnd, ast.Sub, ast.BitXor)) and SET in (l.kind, r.kind) \
                     and l.kind in (SET, CLEAN) and r.kind in (SET, CLEAN):
                 return V(SET)
+            if isinstance(e.op, (ast.BitOr, ast.BitAnd, ast.Sub, ast.BitXor)) and any(
+                    isinstance(x, ast.Call) and isinstance(x.func, ast.Attribute) and x.func.attr in ('keys', 'items') and not x.args
+                    for x in (e.left, e.right)):
+                # set algebra on dictionary views (d.keys() & other) yields a set: iteration order follows the hashes
+                return V(SET)
             if isinstance(e.op, (ast.Add, ast.Mult, ast.Mod)):
                 if l.kind == SET or r.kind == SET:
                     # str % set, list + list(set) handled elsewhere; set arithmetic is not defined for +
@@ -605,6 +610,11 @@ class FuncState:
                 self.setenv(r, V(ORDDICT, self.loop_roots))
             if v.kind in TAINTED and r:
                 self.setenv(r, V(HOLD, v.roots))
+                if '<locals>' in self.func.qualname and r in self.func.params:
+                    # a callback (handler closure) stores a seed-ordered value into an object it was handed: nobody calls the
+                    # closure statically, so the value cannot be followed further - it is in the structure the enclosing API returns
+                    self.sink('escape', t, 'seed-ordered value stored into an argument of a handler closure (part of the structure the '
+                                           'enclosing function builds)', v)
             if v.kind == SET and r and isinstance(t.value, ast.Name):
                 self.setenv(r, V(CLEAN, frozenset(), 'VALSET'))
 
